@@ -780,5 +780,185 @@ theorem produceNonTag_obs {d' : Disp (γ × Flags)} {d : Disp γ} (h : ObsR d' d
     simp only [e1, Bool.false_eq_true, if_false]
     right; exact ⟨rfl, fun _ _ => h⟩
 
+
+/-! ### flag decisions -/
+
+theorem withObs_aux_ok {g g' : γ} {f f1 : Flags} {i : AuxInfo} (h : H.auxInfo g i = (g', .ok f1)) :
+    (withObs H o).auxInfo (g, f) i = ((g', f1), .ok (f1.join o)) := by
+  simp only [withObs, h]
+
+theorem withObs_aux_err {g g' : γ} {f : Flags} {i : AuxInfo} {e : Err} (h : H.auxInfo g i = (g', .error e)) :
+    (withObs H o).auxInfo (g, f) i = ((g', f), .error e) := by
+  simp only [withObs, h]
+
+theorem withObs_start_flags {g g' : γ} {f f1 : Flags} {n : LocalName} {ns : Ns} (h : H.startTag g n ns = (g', .flags f1)) :
+    (withObs H o).startTag (g, f) n ns = ((g', f1), .flags (f1.join o)) := by
+  simp only [withObs, h]
+
+theorem withObs_start_info {g g' : γ} {f : Flags} {n : LocalName} {ns : Ns} (h : H.startTag g n ns = (g', .infoRequest)) :
+    (withObs H o).startTag (g, f) n ns = ((g', f), .infoRequest) := by
+  simp only [withObs, h]
+
+theorem withObs_start_err {g g' : γ} {f : Flags} {n : LocalName} {ns : Ns} {e : Err} (h : H.startTag g n ns = (g', .err e)) :
+    (withObs H o).startTag (g, f) n ns = ((g', f), .err e) := by
+  simp only [withObs, h]
+
+theorem DRes.bind_ok' {κ α β : Type} {r : DRes κ α} {a : α} (f : Disp κ → α → DRes κ β) (h : r.2 = .ok a) :
+    r.bind f = f r.1 a := by unfold DRes.bind; rw [h]
+
+theorem DRes.bind_err' {κ α β : Type} {r : DRes κ α} {e : Err} (f : Disp κ → α → DRes κ β) (h : r.2 = .error e) :
+    r.bind f = (r.1, .error e) := by unfold DRes.bind; rw [h]
+
+/-- `ObsR` after a flag decision of `H` -/
+theorem ObsR.decide {d' : Disp (γ × Flags)} {d : Disp γ} (h : ObsR d' d) (htp : d.textPending = false)
+    (htp' : d'.textPending = false) (g' : γ) (f1 : Flags) (hst : f1.sticky = true) :
+    ObsR ({ d' with ctl := (g', f1), flags := f1.join o } : Disp (γ × Flags)) ({ d with ctl := g', flags := f1 } : Disp γ) := by
+  refine ObsR.mk' (c' := (g', f1)) (c := g') (v' := { d'.view with flags := f1.join o }) (v := { d.view with flags := f1 })
+    rfl rfl rfl rfl ?_
+  exact ⟨rfl, ⟨o, rfl⟩, hst, h.emis, h.gf', h.gf, h.pa', h.pa,
+    fun hh => (by rw [show ({ d.view with flags := f1 } : DView).tp = d.textPending from rfl, htp] at hh; cases hh),
+    fun _ hh => (by rw [show ({ d'.view with flags := f1.join o } : DView).tp = d'.textPending from rfl, htp'] at hh; cases hh),
+    h.rcs⟩
+
+/-- `ObsR` after a call of `H` that does not change its flags -/
+theorem ObsR.setCtl {d' : Disp (γ × Flags)} {d : Disp γ} (h : ObsR d' d) (g' : γ) :
+    ObsR ({ d' with ctl := (g', d.flags) } : Disp (γ × Flags)) ({ d with ctl := g' } : Disp γ) := by
+  refine ObsR.mk' (c' := (g', d.flags)) (c := g') (v' := d'.view) (v := d.view) rfl rfl rfl rfl ?_
+  exact ⟨rfl, h.flags, h.sticky, h.emis, h.gf', h.gf, h.pa', h.pa, h.tp, h.tp', h.rcs⟩
+
+variable (hs : StickyCtl H)
+include hs
+
+theorem answerAux_obs {d' : Disp (γ × Flags)} {d : Disp γ} (h : ObsR d' d) (htp : d.textPending = false)
+    (htp' : d'.textPending = false) (info : AuxInfo) :
+    DRelO (d'.answerAux (withObs H o) info) (d.answerAux H info) := by
+  have hc : d'.ctl = (d.ctl, d.flags) := h.ctl
+  unfold Disp.answerAux
+  rw [hc]
+  cases hr : H.auxInfo d.ctl info with
+  | mk g' res =>
+    cases res with
+    | ok f1 =>
+      rw [withObs_aux_ok hr]
+      right
+      exact ⟨rfl, fun _ _ => h.decide (o := o) htp htp' g' f1 (hs.aux _ _ _ (by rw [hr]))⟩
+    | error e =>
+      rw [withObs_aux_err hr]
+      right
+      exact ⟨rfl, fun a ha => by cases ha⟩
+
+theorem adjust_obs {d' : Disp (γ × Flags)} {d : Disp γ} (h : ObsR d' d) (htp : d.textPending = false)
+    (htp' : d'.textPending = false) (lx : TagLexeme) :
+    DRelO (d'.adjustFlagsForTag (withObs H o) inp lx) (d.adjustFlagsForTag H inp lx) := by
+  have hc : d'.ctl = (d.ctl, d.flags) := h.ctl
+  have hpa : d.pendingAux = false := h.pa
+  have hpa' : d'.pendingAux = false := h.pa'
+  unfold Disp.adjustFlagsForTag
+  rw [if_neg (by rw [hpa']; simp), if_neg (by rw [hpa]; simp)]
+  cases lx.outline with
+  | startTag name hsh ns as sc =>
+    dsimp only
+    cases LocalName.new inp name hsh with
+    | none => left; exact ⟨_, rfl⟩
+    | some ln =>
+      dsimp only
+      rw [hc]
+      cases hr : H.startTag d.ctl ln ns with
+      | mk g' res =>
+        cases res with
+        | flags f1 =>
+          rw [withObs_start_flags hr]
+          right
+          exact ⟨rfl, fun _ _ => h.decide (o := o) htp htp' g' f1 (hs.start _ _ _ _ (by rw [hr]))⟩
+        | infoRequest =>
+          rw [withObs_start_info hr]
+          exact answerAux_obs (o := o) hs (h.setCtl g') htp htp' _
+        | err e =>
+          rw [withObs_start_err hr]
+          right
+          exact ⟨rfl, fun a ha => by cases ha⟩
+  | endTag name hsh =>
+    dsimp only
+    cases LocalName.new inp name hsh with
+    | none => left; exact ⟨_, rfl⟩
+    | some ln =>
+      dsimp only
+      rw [hc]
+      right
+      refine ⟨rfl, fun _ _ => ?_⟩
+      exact h.decide (o := o) htp htp' (H.endTag d.ctl ln).1 (H.endTag d.ctl ln).2 (hs.end_ _ _)
+
+omit hs in
+theorem resume_obs {d' : Disp (γ × Flags)} {d : Disp γ} (h : ObsR d' d) (lx : TagLexeme) :
+    ObsR (d'.resumeEmission (withObs H o) lx) (d.resumeEmission H lx) := by
+  have hc : d'.ctl = (d.ctl, d.flags) := h.ctl
+  have he : d'.emissionEnabled = d.emissionEnabled := h.emis
+  unfold Disp.resumeEmission Disp.shouldStopRemoving
+  have : (withObs H o).shouldEmit d'.ctl = H.shouldEmit d.ctl := by rw [hc]; rfl
+  rw [this, he]
+  split
+  · refine ObsR.mk' (c' := d'.ctl) (c := d.ctl) (v' := { d'.view with emis := true, rcs := lx.raw.start })
+      (v := { d.view with emis := true, rcs := lx.raw.start }) rfl rfl rfl rfl ?_
+    exact ⟨hc, h.flags, h.sticky, rfl, h.gf', h.gf, h.pa', h.pa, h.tp, h.tp', Nat.le_refl _⟩
+  · exact h
+
+/-- **one tag lexeme**: same directive, related dispatchers — unless the observing run panics -/
+theorem handleTag_obs {d' : Disp (γ × Flags)} {d : Disp γ} (h : ObsR d' d) (lx : TagLexeme) :
+    DRelO (Disp.handleTag (withObs H o) inp lx d') (Disp.handleTag H inp lx d) := by
+  unfold Disp.handleTag
+  obtain ⟨f1, f2, f3, f4⟩ := flush_obs (H := H) (o := o) h
+  cases hfr : (d.flushPendingText H).2 with
+  | error e =>
+    rw [DRes.bind_err' _ hfr, DRes.bind_err' _ (by rw [f1, hfr])]
+    right
+    exact ⟨rfl, fun a ha => by cases ha⟩
+  | ok u =>
+    rw [DRes.bind_ok' _ hfr, DRes.bind_ok' _ (by rw [f1, hfr])]
+    have g1 : (d.flushPendingText H).1.gotFlagsFromHint = false := f2.gf
+    have g2 : (d'.flushPendingText (withObs H o)).1.gotFlagsFromHint = false := f2.gf'
+    rw [g1, g2]
+    simp only [Bool.false_eq_true, if_false]
+    apply DRelO.bind (adjust_obs hs f2 f3 f4 lx)
+    intro e' e _ hR
+    apply DRelO.bind (produceTag_obs (resume_obs hR lx) lx)
+    intro k' k _ hK
+    right
+    have hcK : k'.ctl = (k.ctl, k.flags) := hK.ctl
+    obtain ⟨o', hfl⟩ := hK.flags
+    have hfl' : k'.flags = k.flags.join o' := hfl
+    have hst : k.flags.sticky = true := hK.sticky
+    have hne : k.flags.isEmpty = false := Flags.sticky_nonempty hst
+    have hne' : k'.flags.isEmpty = false := by rw [hfl']; exact Flags.sticky_nonempty (Flags.sticky_join hst)
+    refine ⟨?_, fun _ _ => ?_⟩
+    · simp only [Disp.nextDirective, hne, hne']
+    · have : (withObs H o).shouldEmit k'.ctl = H.shouldEmit k.ctl := by rw [hcK]; rfl
+      rw [this]
+      refine ObsR.mk' (c' := k'.ctl) (c := k.ctl) (v' := { k'.view with emis := H.shouldEmit k.ctl })
+        (v := { k.view with emis := H.shouldEmit k.ctl }) rfl rfl rfl rfl ?_
+      exact ⟨hcK, hK.flags, hK.sticky, rfl, hK.gf', hK.gf, hK.pa', hK.pa, hK.tp, hK.tp', hK.rcs⟩
+
+omit hs in
+/-- **one non-tag lexeme** -/
+theorem handleNonTag_obs {d' : Disp (γ × Flags)} {d : Disp γ} (h : ObsR d' d) (lx : NonTagLexeme) :
+    DRelO (Disp.handleNonTag (withObs H o) inp lx d') (Disp.handleNonTag H inp lx d) := by
+  unfold Disp.handleNonTag
+  cases lx.isText with
+  | true =>
+    simp only [if_true]
+    rw [DRes.bind_ok' _ (rfl : ((d, Except.ok ()) : DRes γ Unit).2 = .ok ()),
+      DRes.bind_ok' _ (rfl : ((d', Except.ok ()) : DRes (γ × Flags) Unit).2 = .ok ())]
+    exact produceNonTag_obs h lx
+  | false =>
+    simp only [Bool.false_eq_true, if_false]
+    obtain ⟨f1, f2, _, _⟩ := flush_obs (H := H) (o := o) h
+    cases hfr : (d.flushPendingText H).2 with
+    | error e =>
+      rw [DRes.bind_err' _ hfr, DRes.bind_err' _ (by rw [f1, hfr])]
+      right
+      exact ⟨rfl, fun a ha => by cases ha⟩
+    | ok u =>
+      rw [DRes.bind_ok' _ hfr, DRes.bind_ok' _ (by rw [f1, hfr])]
+      exact produceNonTag_obs f2 lx
+
 end
 end LolHtml.Model
